@@ -53,6 +53,8 @@ pub(crate) fn output_declaration_net(s: Span) -> IResult<Span, OutputDeclaration
     let (s, a) = keyword("output")(s)?;
     let (s, b) = net_port_type(s)?;
     let (s, c) = list_of_port_identifiers(s)?;
+    // an initial value belongs to list_of_variable_port_identifiers: "output reg q = 0" is the variable form
+    let (s, _) = peek(not(symbol("=")))(s)?;
     Ok((
         s,
         OutputDeclaration::Net(Box::new(OutputDeclarationNet { nodes: (a, b, c) })),
